@@ -1822,9 +1822,10 @@ class Analyzer:
         except Exception:
             return t["ak"]
 
-    def panic_guard(self, bi):
+    def panic_guard(self, bi, parts=False):
         """condition that must hold for the panic block `bi` to be unreachable: the conjunction, over the
-        switch edges that lead (through straight-line blocks) into it, of the negated edge conditions; or None"""
+        switch edges that lead (through straight-line blocks) into it, of the negated edge conditions; or None.
+        parts=True: the list of (conjunct, label) instead, the label being the source form of the tested condition"""
         b = self.b
         entry_edges = []
         seen = set()
@@ -1848,6 +1849,7 @@ class Analyzer:
             if len(seen) > 12:
                 return None
         conds = []
+        labels = []
         for p, x in entry_edges:
             d = self.switch_conds.get(p)
             if d is None or d[0] != "b":
@@ -1871,8 +1873,14 @@ class Analyzer:
             else:
                 return None
             conds.append(("not", d[1]) if edge_truth else d[1])
+            try:
+                labels.append(("!" if edge_truth else "") + _short(show(self.eb.operand(t["discr"]))))
+            except Exception:
+                labels.append("c%d" % len(labels))
         if not conds:
             return None
+        if parts:
+            return sorted(zip(conds, labels), key=lambda cl: cl[1])
         return conds[0] if len(conds) == 1 else ("and",) + tuple(conds)
 
     def vs(self, v):
